@@ -135,7 +135,7 @@ IMM_STMT = {
     "onT2": "q%(n)d.X = %(n)d",
     "onHidden": "%(q)sHidden().X = %(n)d",
     "local": "l%(n)d = %(n)d",
-    "recvAssign": "*r = T{X: %(n)d}",
+    "recvAssign": "*%(x)s = T{X: %(n)d}",
     "recvInc": "*r++",
     "recvDec": "*r--",
     "starPlain": "*r = %(n)d",
@@ -150,7 +150,7 @@ def build_imm(sc, sid):
 
 def imm_container(c, n, pkg, qual, handles):
     """Returns (header lines, pre lines, statement text, post lines, footer lines) of one container."""
-    x = "r" if c["via"] == "r" else "p%d" % n     # every receiver is called r
+    x = ("q" if c["kind"] == "pmethQ" else "r") if c["via"] == "r" else "p%d" % n     # every receiver is called r (but pmethQ's: q)
     stmt = IMM_STMT[c["stmt"]] % {"x": x, "n": n, "q": qual}
     if c["stmt"] == "onHidden":
         pass
@@ -198,6 +198,8 @@ def imm_container(c, n, pkg, qual, handles):
         "other": "func fn%d(%s) {" % (n, params),
         "pmeth": "func (r %s) m%d(%s) {" % (type_expr(c["sp"], True, "") if c["via"] == "r" else "*T", n, params),
         "vmeth": "func (r %s) m%d(%s) {" % (type_expr(c["sp"], False, "") if c["via"] == "r" else "T", n, params),
+        "pmethQ": "func (q *T) m%d(%s) {" % (n, params),
+        "pmeth0": "func (*T) m%d(%s) {" % (n, params),
         "cmeth": "func (r *C) m%d() {" % n,
         "ometh": "func (o%d *O) m%d(%s) {" % (n, n, params),
         "init": "func init() {",
